@@ -236,7 +236,7 @@ pub open spec fn is_write(info: StoreInfo, store: Store, at: int, data: Seq<u8>)
 
 impl Oplog {
     /*@ fn src/oplog/mod.rs Oplog::append_entries
-    tags: C01 C02 C06 C10
+    tags: C01 C02 C06 C10 C03
     result: r
     requires:
         entries_ok(batch@), batch@.len() <= 4,
@@ -370,7 +370,7 @@ pub open spec fn header_same_except_tree(a: Header, b: Header) -> bool {
 
 impl Oplog {
     /*@ fn src/oplog/mod.rs Oplog::update_header_with_changeset
-    tags: C01 C02 C04 C05 C06
+    tags: C01 C02 C04 C05 C06 C03
     result: r
     requires:
         changeset.upgraded ==> changeset.hash is Some && changeset.signature is Some
@@ -449,7 +449,7 @@ impl OplogOpenOutcome {
 
 impl Oplog {
     /*@ fn src/oplog/mod.rs Oplog::append_changeset
-    tags: C01 C02 C04 C05 C06 C10
+    tags: C01 C02 C04 C05 C06 C10 C03
     result: r
     requires:
         changeset.upgraded ==> changeset.hash is Some && changeset.signature is Some,
@@ -525,7 +525,7 @@ pub open spec fn live_slot(existing: Seq<u8>) -> int {
 
 impl Oplog {
     /*@ fn src/oplog/mod.rs Oplog::open ; noisolation
-    tags: C01 C02 C06 C07 C12 C10
+    tags: C01 C02 C06 C07 C12 C10 C03
     result: r
     requires:
         info is Some ==> info->Some_0.data is Some && info->Some_0.data->Some_0@.len() <= 0xffff_ffff_ffff
